@@ -19,9 +19,9 @@ PLAN = {
     "C08": [{"engine": "nuts", "level": "exploration",
              "quick": {"runs": 1500, "budget_s": 240}, "thorough": {"runs": 20000, "budget_s": 3000}}],
     "C11": [{"engine": "objhist", "level": "exploration",
-             "quick": {"runs": 600, "budget_s": 240}, "thorough": {"runs": 20000, "budget_s": 3000}}],
+             "quick": {"runs": 900, "budget_s": 300}, "thorough": {"runs": 20000, "budget_s": 3000}}],
     "C01": [{"engine": "objhist", "level": "exploration",
-             "quick": {"runs": 600, "budget_s": 240}, "thorough": {"runs": 20000, "budget_s": 3000}}],
+             "quick": {"runs": 900, "budget_s": 300}, "thorough": {"runs": 20000, "budget_s": 3000}}],
     "C05": [{"engine": "streams", "level": "exploration",
              "quick": {"runs": 3000, "budget_s": 240}, "thorough": {"runs": 100000, "budget_s": 3000}}],
     "C09": [{"engine": "gibbs", "level": "exploration",
